@@ -302,6 +302,7 @@ fn map_exch(x: &Exch, f: &mut dyn FnMut(usize) -> usize) -> Exch {
 /// every written name of a transaction, in source order
 fn map_txn(t: &Txn, fa: &mut dyn FnMut(usize) -> usize, fc: &mut dyn FnMut(usize) -> usize) -> Txn {
     Txn {
+        effective: t.effective,
         date: t.date,
         posts: t
             .posts
